@@ -437,9 +437,17 @@ class IMAPSearch:
                 if elt == msg_number:
                     return True
             elif isinstance(elt, tuple):
-                if isinstance(elt[1], str) and elt[1] == "*":
-                    elt = (elt[0], self.ctx.seq_max)
-                if msg_number >= elt[0] and msg_number <= elt[1]:
+                # `*` may be either end of the range and `a:b` is the same
+                # set as `b:a` (rfc3501 seq-range).
+                #
+                start, end = elt
+                if isinstance(start, str) and start == "*":
+                    start = self.ctx.seq_max
+                if isinstance(end, str) and end == "*":
+                    end = self.ctx.seq_max
+                if start > end:
+                    start, end = end, start
+                if msg_number >= start and msg_number <= end:
                     return True
         return False
 
@@ -563,8 +571,16 @@ class IMAPSearch:
                 if elt == uid:
                     return True
             elif isinstance(elt, tuple):
-                if isinstance(elt[1], str) and elt[1] == "*":
-                    elt = (elt[0], self.ctx.uid_max)
-                if uid >= elt[0] and uid <= elt[1]:
+                # `*` may be either end of the range and `a:b` is the same
+                # set as `b:a` (rfc3501 seq-range).
+                #
+                start, end = elt
+                if isinstance(start, str) and start == "*":
+                    start = self.ctx.uid_max
+                if isinstance(end, str) and end == "*":
+                    end = self.ctx.uid_max
+                if start > end:
+                    start, end = end, start
+                if uid >= start and uid <= end:
                     return True
         return False
